@@ -1,6 +1,7 @@
 package main
 
 import (
+	"go/types"
 	"strings"
 
 	"golang.org/x/tools/go/ssa"
@@ -65,6 +66,7 @@ func init() {
 		Explanation: "Decides the resolution path's structure: (1) flush works on copies, treats an alert as resolved iff its end time has passed at the flush's clock, clears the end time of firing copies, sends the whole group, and removes resolved alerts (and destroys the group) only after the pipeline reported success; (2) the store removes an alert only if it is unmodified since the flush read it (same UpdatedAt), so a re-fire during delivery survives; (3) with send_resolved off RetryStage never notifies a resolved alert and reports success without notifying when nothing fires; with send_resolved on it sends the whole batch; (4) the de-duplication table notifies once when everything resolved / a new alert resolved and partitions alerts by Resolved(); (5) pipeline errors of any integration propagate to the flush so a failed resolved-notification is retried; the store (and group) is declared destroyed only when it is empty after the deletions.",
 		NotDecided:  "'never reported resolved early' rests on model.Alert.ResolvedAt (library); timing of the next flush.",
 	}
+	reg("C05", "C05.20", "T3,T12", "a stored alert is never changed in place: fields of an alert are written only on an object the writing function built or copied", storedAlertImmutableRule)
 	reg("C05", "C05.1", "T1,T8", "flush: copies; resolved iff ResolvedAt(now); EndsAt cleared on firing copies; whole group sent; resolved removed only after success", func(o *Ob) {
 		flushDischargeRule(o)
 		o.MinSites(4)
@@ -223,4 +225,37 @@ func init() {
 	reg("C05", "C05.14", "T12,T8", "rendering an alert never changes when it resolves: "+desc, func(o *Ob) { exposeAlertsReadOnlyRule(o); o.MinSites(1) })
 	reg("C13", "C13.10", "T12,T8", "reading alerts does not change what is stored: "+desc, func(o *Ob) { exposeAlertsReadOnlyRule(o); o.MinSites(1) })
 	reg("C20", "C20.11", "T12,T8", "the data handed to templates lists the alerts unchanged: "+desc, func(o *Ob) { exposeAlertsReadOnlyRule(o); o.MinSites(1) })
+}
+
+// storedAlertImmutableRule: the provider hands the stored *alert.Alert itself to subscribers, groups,
+// the inhibitor and the API; a newer version is a new object put through Put (merge, store, fan-out).
+// So a field of an alert is written only on an object the writing function built or copied.
+func storedAlertImmutableRule(o *Ob) {
+	e := o.E
+	ownParam := map[string]string{}
+	n := 0
+	for _, T := range []string{"am/alert.Alert", "github.com/prometheus/common/model.Alert"} {
+		var st *types.Struct
+		if T != "am/alert.Alert" {
+			if nt := e.NamedType("github.com/prometheus/common/model", "Alert"); nt != nil {
+				st, _ = nt.Underlying().(*types.Struct)
+			}
+		} else if nt := e.NamedType("am/alert", "Alert"); nt != nil {
+			st, _ = nt.Underlying().(*types.Struct)
+		}
+		if !o.Check(st != nil, "type|"+T, T+" no longer exists", nil) {
+			continue
+		}
+		for i := 0; i < st.NumFields(); i++ {
+			f := st.Field(i).Name()
+			for _, w := range e.Writers(T, f) {
+				n++
+				o.Site(w.Instr, w.Kind+" of "+T+"."+f+" in "+fnName(w.Fn))
+				why := ownedValue(e, w.Fn, w.Base, map[ssa.Value]bool{}, ownParam, []string{"am/api/v2.OpenAPIAlertsToAlerts"}, "")
+				o.Check(why == "", "alert-write|"+fnName(w.Fn)+"|"+f, fnName(w.Fn)+" writes "+T+"."+f+" of an alert it neither built nor copied ("+why+"): stored alerts are shared with every subscriber, group and API response", w.Instr)
+			}
+		}
+	}
+	o.Check(n >= 5, "few", "implausibly few writes of alert fields found: "+itoa(n), nil)
+	o.MinSites(5)
 }
